@@ -186,12 +186,22 @@ func (ex *Exec) vfCall(name string, args []Value) Value {
 	case "Uint8":
 		return ex.input("u8", str(args[0]), 8)
 	case "Bool":
-		return ex.input("bool", str(args[0]), 0)
+		// a fresh unconstrained boolean: both values are feasible by construction, fork without asking
+		v := ex.ForkConst(2)
+		t := c.Bool(v == 1)
+		ex.addTape("bool", str(args[0]), t, nil)
+		return t
 	case "Len":
 		return ex.input("len", str(args[0]), 64)
 	case "Choice":
-		v := ex.input("choice", str(args[0]), 64)
 		k := args[1].(*term.T)
+		if k.IsConst() && k.SInt() >= 1 && k.SInt() <= 64 {
+			// fresh value in [0,k): every value is feasible by construction, fork without asking
+			t := ex.constInt(int64(ex.ForkConst(int(k.SInt()))))
+			ex.addTape("choice", str(args[0]), t, nil)
+			return t
+		}
+		v := ex.input("choice", str(args[0]), 64)
 		ex.Assume(c.BAnd(c.Sle(ex.constInt(0), v), c.Slt(v, k)))
 		return v
 	case "Bytes":
